@@ -1,3 +1,5 @@
+//go:build !no_range
+
 package main
 
 import (
